@@ -214,6 +214,16 @@ var props = map[string]propDef{
 		Thorough:       budget{Runs: 6000, Chunk: 40, Wall: 40 * time.Minute, PerChunkGrace: 5 * time.Minute},
 		MinimiseBudget: 90 * time.Second,
 	},
+	"C47": {
+		Binary: "dsim-sql", Harness: "C47", Level: "exploration",
+		Rule: "each run = one server directory behind the production SQL engine holding the root database and up to two nested databases; 12-40 seeded steps (up to 90 thorough): CREATE DATABASE, filling a database (tables, rows, dolt_commit, branches, tags, checkouts, staged and unstaged changes), DROP DATABASE, CREATE of the same name again, CALL dolt_undrop with the name in another letter case, CALL dolt_purge_dropped_databases, clean restarts. Just before each DROP a logical fingerprint is taken through SQL (dolt_branches, dolt_tags, dolt_log and dolt_status of every branch, every row of every table of every branch's working set); dolt_undrop must bring back exactly that fingerprint; an undrop onto a live name must fail and leave the live database's fingerprint unchanged; an undrop of a purged or never-dropped name must fail. One evaluation = one dolt_undrop call judged.",
+		Assumptions: []string{"only the most recently dropped database of a name is expected back under that name (older copies are kept by dolt under suffixed names and are not exercised)", "no crash or I/O fault is injected into the directory moves (clean restarts only)"},
+		Real:        sqlReal, Stub: sqlStub, Persistence: "not used (clean restarts only)",
+		ExpectProbes:   []string{"drop-database", "undrop-restored", "undrop-refused-name-in-use", "undrop_nothing_refused", "purge", "clean-restart", "created"},
+		Quick:          budget{Runs: 120, Chunk: 10, Wall: 150 * time.Second, PerChunkGrace: 120 * time.Second},
+		Thorough:       budget{Runs: 4000, Chunk: 40, Wall: 40 * time.Minute, PerChunkGrace: 5 * time.Minute},
+		MinimiseBudget: 90 * time.Second,
+	},
 	"C27": {
 		Binary: "dsim-sql", Harness: "C27", Level: "exploration",
 		Rule: "each run = 2-3 sessions (autocommit drawn per session) on main plus one session on branch b1 of a fresh on-disk repository behind the production SQL engine; one keyless table kl(a, b) with a secondary index; 20-70 seeded statements: multi-row INSERT of duplicate rows, DELETE ... LIMIT n, UPDATE ... LIMIT n, COMMIT / ROLLBACK, edits on b1, CALL dolt_merge('b1'), clean restarts. The reference model is a multiset per session (snapshot + own writes) and per branch; transaction commits and branch merges combine multiplicity changes row by row (both sides changed the multiplicity of one row differently => must be reported as a conflict). Every GROUP BY over all columns, COUNT(*) and index lookup must equal the multiset. One evaluation = one checked read.",
